@@ -1,4 +1,4 @@
 From Coq Require Import List NArith Extraction ExtrOcamlBasic.
 From DDP Require Import Alias.OMap Alias.Trie Alias.TokKey Alias.C20Model.
 Extraction Language OCaml.
-Extraction "c20_model.ml" c20_run c20_run_copy tok_eq tok_less.
+Extraction "c20_model.ml" c20_run c20_step c20_empty tok_eq tok_less.
